@@ -281,10 +281,23 @@ def run_item(item):
         l2 = make_diff(rng, lang, n2)
         if l1 is None or l2 is None:
             return inconclusive('empty diff')
+        label = (n1, n2)
+        if rng.random() < 0.3:
+            # the same lines removed from / added to the file, once as a deleted / new file (one side is /dev/null) and once
+            # as an ordinary change of that file: the name is the same, so is the language
+            src = list(snippets.SNIPPETS[lang])
+            which = rng.choice(['deleted', 'added'])
+            mk, cnt = ('-', '-1,%d +0,0' % len(src)) if which == 'deleted' else ('+', '-0,0 +1,%d' % len(src))
+            body = ['@@ %s @@' % cnt] + [mk + t for t in src]
+            if which == 'deleted':
+                l1 = ['diff --git a/%s b/%s' % (n1, n1), 'deleted file mode 100644', 'index 1111111..0000000', '--- a/' + n1, '+++ /dev/null'] + body
+            else:
+                l1 = ['diff --git a/%s b/%s' % (n1, n1), 'new file mode 100644', 'index 0000000..1111111', '--- /dev/null', '+++ b/' + n1] + body
+            l2 = ['diff --git a/%s b/%s' % (n1, n1), 'index 1111111..2222222 100644', '--- a/' + n1, '+++ b/' + n1] + body
+            label = (which + ' ' + n1, 'changed ' + n1)
         opts['--syntax-theme'] = rng.choice(themes)
         a = runner.run_delta(gen.to_args(opts), ('\n'.join(l1) + '\n').encode())
         b = runner.run_delta(gen.to_args(opts), ('\n'.join(l2) + '\n').encode())
-        label = (n1, n2)
     for r in (a, b):
         c = crash_outcome(r, ID)
         if c is not None:
